@@ -15,7 +15,7 @@ from decimal import Decimal
 
 import rtemporal as R
 import runner
-from common import chunks, crash_signature, panic_signature, rng_for
+from common import chunks, crash_signature, rng_for
 
 LEVEL = "exploration"
 
@@ -134,7 +134,7 @@ def expect(sig_base, desc, want, fmt=None):
 
     def cb(rep, how, got, rcase):
         if how == "panic":
-            rep.violation(panic_signature(got), "panic in %s: %s" % (desc, got.get("msg")), {"variant": "dbg", "case": rcase, "expected": want, "observed": {"panic": got}})
+            rep.violation(R.panic_site_signature(got), "panic in %s: %s" % (desc, got.get("msg")), {"variant": "dbg", "case": rcase, "expected": want, "observed": {"panic": got}})
             return
         g = fmt(got) if fmt else got
         if g != want:
@@ -151,7 +151,7 @@ def expect(sig_base, desc, want, fmt=None):
 def only_panics(desc):
     def cb(rep, how, got, rcase):
         if how == "panic":
-            rep.violation(panic_signature(got), "panic in %s: %s" % (desc, got.get("msg")), {"variant": "dbg", "case": rcase, "expected": "a value or null", "observed": {"panic": got}})
+            rep.violation(R.panic_site_signature(got), "panic in %s: %s" % (desc, got.get("msg")), {"variant": "dbg", "case": rcase, "expected": "a value or null", "observed": {"panic": got}})
         else:
             rep.undecided += 1
 
@@ -171,7 +171,7 @@ def sweep(rep, y_lo, y_hi):
     for case, res in zip(cases, results):
         _harness_ok(res)
         if "years" not in res:
-            sig = panic_signature(res["panic"]) if "panic" in res else crash_signature(res, "c15-datesweep")
+            sig = R.panic_site_signature(res["panic"]) if "panic" in res else crash_signature(res, "c15-datesweep")
             rep.violation(sig, "datesweep %s died: %s" % (case, json.dumps(res)[:400]), {"variant": "dbg", "case": case})
             continue
         for y, ctor, lit, ord_bad in res["years"]:
@@ -274,7 +274,7 @@ def run_ctor(rep, rng, quick):
 
         def cb(rep_, how, got, rcase, y=y, m=m, d=d, valid=valid, comp=comp, want=want):
             if how == "panic":
-                rep_.violation(panic_signature(got), "panic in date(%d, %d, %d): %s" % (y, m, d, got.get("msg")), {"variant": "dbg", "case": rcase})
+                rep_.violation(R.panic_site_signature(got), "panic in date(%d, %d, %d): %s" % (y, m, d, got.get("msg")), {"variant": "dbg", "case": rcase})
                 return
             comps = [num(x) for x in got[1:4]] if isinstance(got, list) else None
             v = got[0] if isinstance(got, list) else got
@@ -661,7 +661,7 @@ def run_ym_between(rep, rng, quick):
 
         def cb(rep_, how, got, rcase, months=months, desc=desc, sig="ym-between:%s:%s" % (direction, span)):
             if how == "panic":
-                rep_.violation(panic_signature(got), "panic in %s: %s" % (desc, got.get("msg")), {"variant": "dbg", "case": rcase})
+                rep_.violation(R.panic_site_signature(got), "panic in %s: %s" % (desc, got.get("msg")), {"variant": "dbg", "case": rcase})
                 return
             want = R.canon_ymd(months)
             g = got.get("ymd") if isinstance(got, dict) else None
@@ -735,7 +735,7 @@ def run_durations(rep, rng, quick):
 
             def cb(rep_, how, got, rcase, a=a):
                 if how == "panic":
-                    rep_.violation(panic_signature(got), "panic reading components of %s" % R.canon_dtd(a), {"variant": "dbg", "case": rcase})
+                    rep_.violation(R.panic_site_signature(got), "panic reading components of %s" % R.canon_dtd(a), {"variant": "dbg", "case": rcase})
                     return
                 comps = [num(v) for v in got] if isinstance(got, list) else None
                 if not comps or any(c is None for c in comps):
@@ -763,7 +763,7 @@ def run_durations(rep, rng, quick):
 
             def cb(rep_, how, got, rcase, a=a):
                 if how == "panic":
-                    rep_.violation(panic_signature(got), "panic reading components of %s" % R.canon_ymd(a), {"variant": "dbg", "case": rcase})
+                    rep_.violation(R.panic_site_signature(got), "panic reading components of %s" % R.canon_ymd(a), {"variant": "dbg", "case": rcase})
                     return
                 comps = [num(v) for v in got] if isinstance(got, list) else None
                 if not comps or any(c is None for c in comps):
